@@ -253,6 +253,33 @@ func polyModel(p rlwe.Parameters, cheb bool, degree int, S float64, rho, delta f
 
 const safety = 16
 
+// snapshotPolys records every coefficient of the caller's polynomials (nil-ness and exact value).
+func snapshotPolys(ps []bignum.Polynomial) [][]string {
+	r := make([][]string, len(ps))
+	for k, p := range ps {
+		r[k] = make([]string, len(p.Coeffs))
+		for i, c := range p.Coeffs {
+			if c == nil {
+				r[k][i] = "nil"
+			} else {
+				r[k][i] = c[0].Text('p', 0) + "," + c[1].Text('p', 0)
+			}
+		}
+	}
+	return r
+}
+
+func diffPolys(a, b [][]string) string {
+	for k := range a {
+		for i := range a[k] {
+			if a[k][i] != b[k][i] {
+				return fmt.Sprintf("polynomial %d coefficient %d: %s -> %s", k, i, a[k][i], b[k][i])
+			}
+		}
+	}
+	return ""
+}
+
 // ---------------------------------------------------------------------------------------------
 // leaf
 
@@ -264,7 +291,9 @@ type ckksCfg struct {
 	kinds       []int
 	declared    bool
 	declareEach bool
-	logSlots    int // 0: full packing; otherwise sparse packing on 2^logSlots slots
+	nilHoles    bool // absent coefficients are nil pointers (as bignum.NewPolynomial keeps them) instead of zeros
+	twice       bool // evaluate the same polynomial object a second time
+	logSlots    int  // 0: full packing; otherwise sparse packing on 2^logSlots slots
 }
 
 func ckksLeaf(c *engine.Chooser, scName string, cfg *ckksCfg) {
@@ -303,8 +332,12 @@ func ckksLeaf(c *engine.Chooser, scName string, cfg *ckksCfg) {
 		tgtScale = rlwe.NewScale(delta*1.25 + 3)
 	}
 	declare := sh.parity != 0 && (cfg.declared || c.Bool("declareParity"))
-	desc := fmt.Sprintf("ckks/%s %s kind=%d entry=%s level=%d(need %d, max %d) inScaleAlt=%v targetScaleAlt=%v declareParity=%v",
-		bc.name, sh.name, kind, entryNames[entry], level, need, maxLevel, inAlt, tgtAlt, declare)
+	nilHoles := cfg.nilHoles || c.Bool("nilHoles")
+	twice := cfg.twice || c.Bool("twice")
+	desc := fmt.Sprintf("ckks/%s %s kind=%d entry=%s level=%d(need %d, max %d) inScaleAlt=%v targetScaleAlt=%v declareParity=%v nilHoles=%v twice=%v",
+		bc.name, sh.name, kind, entryNames[entry], level, need, maxLevel, inAlt, tgtAlt, declare, nilHoles, twice)
+	c.Cover("nilHoles", fmt.Sprint(nilHoles))
+	c.Cover("twice", fmt.Sprint(twice))
 	c.Note("%s", desc)
 	sig := "C13/ckks-" + bc.name + "/" + entryNames[entry]
 	class := knownClass("ckks", sh, kind, entry, declare)
@@ -401,10 +434,21 @@ func ckksLeaf(c *engine.Chooser, scName string, cfg *ckksCfg) {
 	// ---- polynomial object
 	mkBig := func(k int) bignum.Polynomial {
 		var p bignum.Polynomial
+		var cs interface{} = coeffs[k]
+		if nilHoles {
+			// absent terms as nil coefficients (the leading one stays: the library dereferences Coeffs[degree])
+			bc := make([]*bignum.Complex, len(coeffs[k]))
+			for i, v := range coeffs[k] {
+				if v != 0 || i == len(coeffs[k])-1 {
+					bc[i] = bignum.ToComplex(v, w.Params.EncodingPrecision())
+				}
+			}
+			cs = bc
+		}
 		if bc.basis == bignum.Chebyshev {
-			p = bignum.NewPolynomial(bignum.Chebyshev, coeffs[k], [2]float64{bcs[k].a, bcs[k].b})
+			p = bignum.NewPolynomial(bignum.Chebyshev, cs, [2]float64{bcs[k].a, bcs[k].b})
 		} else {
-			p = bignum.NewPolynomial(bignum.Monomial, coeffs[k], nil)
+			p = bignum.NewPolynomial(bignum.Monomial, cs, nil)
 		}
 		if kind >= kVector0 && maps[kind-kVector0].declareEach {
 			switch k {
@@ -427,6 +471,7 @@ func ckksLeaf(c *engine.Chooser, scName string, cfg *ckksCfg) {
 	var pol interface{}
 	var vec *ckkspoly.PolynomialVector
 	p0 := mkBig(0)
+	bigs := []bignum.Polynomial{p0} // the caller's polynomial objects (their Coeffs are shared with what is handed over)
 	switch {
 	case kind == kBignum:
 		pol = p0
@@ -446,6 +491,7 @@ func ckksLeaf(c *engine.Chooser, scName string, cfg *ckksCfg) {
 		}
 		pol = pv
 		vec = &pv
+		bigs = ps
 	}
 
 	// ---- change of basis ct' = scalar * ct + constant, applied on the plaintext side (before encryption) with the
@@ -478,7 +524,8 @@ func ckksLeaf(c *engine.Chooser, scName string, cfg *ckksCfg) {
 	pe := ckkspoly.NewEvaluator(w.Params, ev)
 	var out *rlwe.Ciphertext
 	var err error
-	_, panicked := uni.Try(func() error {
+	before := snapshotPolys(bigs)
+	runOnce := func() error {
 		switch entry {
 		case eEvaluate:
 			out, err = pe.Evaluate(ct, pol, tgtScale)
@@ -498,7 +545,12 @@ func ckksLeaf(c *engine.Chooser, scName string, cfg *ckksCfg) {
 			out, err = pe.EvaluateFromPowerBasis(pb, pol, tgtScale)
 		}
 		return nil
-	})
+	}
+	_, panicked := uni.Try(runOnce)
+	// the polynomial handed to the evaluator is an input: its coefficients must be what they were
+	if d := diffPolys(before, snapshotPolys(bigs)); d != "" && panicked == nil {
+		rep.fail(sig+"/polynomial-modified", "polynomial-modified", "%s: the caller's polynomial changed during the evaluation: %s", desc, d)
+	}
 	tooLow := level < need
 	switch {
 	case panicked != nil:
@@ -556,6 +608,18 @@ func ckksLeaf(c *engine.Chooser, scName string, cfg *ckksCfg) {
 	}
 	if !ct.Equal(ctBackup) {
 		rep.fail(sig+"/input-modified", "input-modified", "%s: input ciphertext changed", desc)
+	}
+	if twice {
+		// the SAME polynomial object, ciphertext and evaluator once more: evaluation is deterministic, the result must be the same ciphertext
+		first := out
+		if _, p2 := uni.Try(runOnce); p2 != nil {
+			rep.fail(sig+"/second-evaluation/panic", "second-evaluation-panic", "%s: second evaluation of the same polynomial object: panic: %v", desc, p2)
+		} else if err != nil {
+			rep.fail(sig+"/second-evaluation/error", "second-evaluation-error", "%s: second evaluation of the same polynomial object: %v", desc, err)
+		} else if !out.Equal(first) {
+			got2 := w.Decode(out, logSlots, tgtScale)
+			rep.fail(sig+"/second-evaluation/differs", "second-evaluation-differs", "%s: second evaluation of the same polynomial object differs from the first\n first  %v\n second %v", desc, got, got2)
+		}
 	}
 	c.Note("max |diff| = %.3g, eps = %.3g", worst, eps)
 	c.Outcome("ckks", bc.name, fmt.Sprint(want))
@@ -638,7 +702,7 @@ func ckksScenarios(tier string, shapes []shape, bound int) []engine.Scenario {
 }
 
 func expectCKKS(tier string) []string {
-	e := []string{"rejected=ckks/too-few-levels", "vector-intervals=per-polynomial", "packing=sparse", "packing=full", "ring=standard", "ring=conjugate-invariant"}
+	e := []string{"rejected=ckks/too-few-levels", "vector-intervals=per-polynomial", "nilHoles=true", "nilHoles=false", "twice=true", "twice=false", "holes=irregular", "packing=sparse", "packing=full", "ring=standard", "ring=conjugate-invariant"}
 	for _, bc := range basisCases {
 		e = append(e, "scheme=ckks-"+bc.name)
 	}
